@@ -5,7 +5,10 @@ use std::time::Duration;
 #[cfg(not(target_arch = "wasm32"))]
 use std::time::Instant;
 
+#[cfg(not(indicatif_verif))]
 use portable_atomic::{AtomicU64, AtomicU8, Ordering};
+#[cfg(indicatif_verif)]
+use verif_sync::atomic::{AtomicU64, AtomicU8, Ordering};
 #[cfg(target_arch = "wasm32")]
 use web_time::Instant;
 
